@@ -6,7 +6,7 @@
 From Coq Require Import NArith ZArith Bool List.
 From SV.Gen Require Import Tables.
 From SV.Str Require Import Common Quote HtmlEsc Unquote Utf8 RefUtf8 AstQuote TablesOk FinderProofs QuoteProofs
-     GoQuoteProofs RoundTrip HtmlProofs Utf8Proofs UnquoteProofs DoubleProofs Swar.
+     GoQuoteProofs RoundTrip HtmlProofs Utf8Proofs UnquoteProofs DoubleProofs Swar JitString.
 Import ListNotations.
 Open Scope nat_scope.
 
@@ -167,6 +167,13 @@ Theorem C20_unquote_double_refuted :
   (unquote 3 dbl_w3 = UErr c_ERR_EOF 11 /\ ref_unquote2 true dbl_w3 = Some [239; 191; 189; 92]%N).
 Proof. exact unquote_double_refuted. Qed.
 Print Assumptions C20_unquote_double_refuted.
+
+(* the `,string` string-field path of the default decoder (literal \-quote tests of jitdec + the fused native pass with
+   the flags escape_string_twice passes), on what the encoder writes for such a field, with UseUnicodeErrors on or off *)
+Theorem C20_jit_string_tag_canonical : forall unicode_errors t,
+  jit_unquote_twice unicode_errors ([92; 34]%N ++ escape_all _DoubleQuoteTab t ++ [92; 34]%N) = Some t.
+Proof. exact jit_unquote_twice_canonical. Qed.
+Print Assumptions C20_jit_string_tag_canonical.
 
 (* ---------------------------------------------------------------- html_escape *)
 
